@@ -314,9 +314,9 @@ func runRedirect(args []string) error {
 	}
 
 	// (1) exhaustive small alphabet: every kind up to nAll, the standalone pipeline and the path validator up to nMain
-	nAll, nMain := 3, 5
+	nAll, nMain := 3, 4
 	if thorough {
-		nAll = 4
+		nAll, nMain = 4, 5
 	}
 	i := 0
 	d.vap("")
@@ -333,9 +333,14 @@ func runRedirect(args []string) error {
 		})
 	}
 
-	if thorough {
-		// lengths 6 and 7 over the sub-alphabet that matters for the slash/backslash/dot/escape rules
-		for n := 6; n <= 7; n++ {
+	{
+		// longer strings over the sub-alphabet that matters for the slash/backslash/dot/escape rules (quick: 5 and 6; thorough: 6 and 7 -
+		// length 5 is covered by the full alphabet there)
+		lo, hi := 5, 6
+		if thorough {
+			lo, hi = 6, 7
+		}
+		for n := lo; n <= hi; n++ {
 			redirEnumStrings([]byte{'/', '\\', '.', '%', '5', 'C', 'a', '\t'}, n, func(s string) {
 				i++
 				ipath, reqpath := ctxOf(i)
